@@ -22,7 +22,7 @@ def rcptopts(o):
         return "-"
     return "notify=%s,orcpttype=%s,orcpt=%s,rrvs=%s" % (
         "+".join(hx(n) for n in o.get("notify", [])), hx(o.get("orcpttype", b"")), hx(o.get("orcpt", b"")),
-        "nil" if o.get("rrvs") is None else str(o["rrvs"]))
+        "nil" if o.get("rrvs") is None else (str(o["rrvs"]) + ("@%d" % o["rrvszone"] if o.get("rrvszone") else "")))
 
 
 class CC:
